@@ -39,6 +39,8 @@ def oracle(r):
     for k, v in sorted(r["fired_after_faults"].items()):
         if not v:
             why.append("job %s is stored and active but did not fire within 5 s after the faults stopped" % k)
+    for k in r.get("state_differs") or []:
+        why.append("job %s: its Suspended flag differs from what the successful API calls imply (a failed call changed the job's state)" % k)
     for a in r["apis"]:
         outs = a.get("outs") or []
         calls = a.get("calls") or []
